@@ -31,6 +31,8 @@ def analyse(prop: str, tier: str, prog: Program = None) -> Ctx:
     ctx = Ctx(prop, prog, tier)
     ctx.not_decided = list(getattr(mod, "NOT_DECIDED", []))
     mod.run(ctx)
+    from sa.rules.generic import rule_hygiene
+    rule_hygiene(ctx)
     return ctx
 
 
@@ -63,6 +65,8 @@ def main(argv=None):
         ctx = Ctx(prop, prog, tier)
         ctx.not_decided = list(getattr(mod, "NOT_DECIDED", []))
         mod.run(ctx)
+        from sa.rules.generic import rule_hygiene
+        rule_hygiene(ctx)
         selftest = None
         if tier == "thorough":
             from sa.selftest.runner import run_battery
